@@ -3,6 +3,9 @@
 import json
 SC="stateless model checking of the implementation under a controlled scheduler (iterative preemption/delay bounding)"
 CHECKS = {
+ "C08": dict(engine="vsched", technique="explicit-state enumeration of operation histories (each run on the controlled scheduler with the virtual clock) + stateless model checking of concurrent operations, oracle through real TCP/UDP handshakes",
+   text="every history to a stated depth over add/update/delete/edit-and-reload/reload on 2 users x 3 keys, and every interleaving within a deviation bound of 2-3 concurrent operations, with the accepted-key set (real SS2022 TCP handshake and UDP first packet, with attribution), the listed set and the saved file compared at every quiescent state",
+   note="sequential consistency; scheduling points at synchronisation operations only"),
  "C20": dict(engine="vsched", category="model_checking", technique="exhaustive crash-point / write-fault enumeration over the logged file operations of the real save + stateless model checking of the debounce/shutdown protocol",
    text="every crash point (each prefix of the save's file-operation log x each byte count of each write) and each ENOSPC position, for stores of 0..N users and each kind of change, is materialised and restarted through the real loader; every interleaving within a deviation bound of change/debounce/cancel/Stop at each shutdown phase",
    note="crash = process kill (no power-loss reordering); file operations of package cred are routed through verif/shim/vos by the overlay"),
